@@ -1233,6 +1233,8 @@ SHAPES = [
     (311, dict(minp=2, maxp=4, maxarr=1, minsub=3, maxsub=4, depth=1, pdep=0.5, selfen=0.8)),
     # A12 two levels (self-enabled sub-trees below each other and below guarded ones), presets, rDepends on sub-trees
     (312, dict(minp=2, maxp=3, maxarr=1, minsub=2, maxsub=2, depth=2, pdep=0.6, selfen=0.6, subdeps=0.4, leafen=0.3)),
+    # A13 rSelf tables that are off by default and have sub-trees of their own (the lines two levels below wait for the toggle)
+    (402, dict(minp=2, maxp=3, maxarr=1, minsub=1, maxsub=2, depth=2, pdep=0.5, selfen=0.85)),
 ]
 
 _POOL = None
